@@ -50,6 +50,66 @@ def prepare(tier):
     _CORPUS = corpus.load()
 
 
+def extra(tier, seed):
+    """
+    Stub fidelity (DESIGN 3.3): the same call on the REAL fork pools and on the simulated pool, from the same parent
+    RNG state, must give the same samples in the same order.  Real executions are evidence about the stub, never
+    the deciding step for the property.
+    """
+    import logging
+    import numpy as np
+    import atomica as at
+    from atomsim.chooser import random_chooser
+
+    at.logger.setLevel(logging.ERROR)
+    out = {"stub_fidelity": {"cases": 0, "mismatches": []}}
+    errors = []
+    cases = [("udt", 6, 2, False), ("udt", 5, 3, True), ("hypertension", 4, 2, True)]
+    if tier == "thorough":
+        cases += [("gen05", 8, 4, True), ("tb_simple", 7, 1, True), ("usdt", 9, 5, True)]
+    for name, n, w, progs in cases:
+        if name not in _CORPUS:
+            continue
+
+        def build():
+            P = _CORPUS[name].project()
+            ps = P.parsets[0]
+            pg = P.progsets[0] if (progs and len(P.progsets)) else None
+            for par in ps.all_pars():
+                for ts in par.ts.values():
+                    if ts.has_data:
+                        vals = [abs(v) for v in ts.vals] + ([abs(ts.assumption)] if ts.assumption is not None else [])
+                        ts.sigma = 0.01 * (max(vals) if vals and max(vals) > 0 else 1.0)
+            instr = [at.ProgramInstructions(start_year=float(P.settings.sim_start + 2))] if pg is not None else None
+            return P, ps, pg, instr
+
+        try:
+            P, ps, pg, instr = build()
+            np.random.seed(seed % 2**31)
+            real = P.run_sampled_sims(ps, progset=pg, progset_instructions=instr, n_samples=n, parallel=True, num_workers=w)
+            real_d = [[digest_result(r) for r in rs] for rs in real]
+            P, ps, pg, instr = build()
+            ch = random_chooser("c17-fidelity", seed, name, n, w)
+            world = SimWorld(ch, seed=1, cpu_count=w)
+            with seams.patched():
+                world.install()
+                np.random.seed(seed % 2**31)
+                world.main.capture()
+                sim = P.run_sampled_sims(ps, progset=pg, progset_instructions=instr, n_samples=n, parallel=True, num_workers=w)
+                world.current = world.main
+            world.close()
+            sim_d = [[digest_result(r) for r in rs] for rs in sim]
+            out["stub_fidelity"]["cases"] += 1
+            if real_d != sim_d:
+                out["stub_fidelity"]["mismatches"].append({"project": name, "n": n, "workers": w, "real_distinct": len({tuple(x) for x in real_d}), "sim_distinct": len({tuple(x) for x in sim_d})})
+        except Exception as e:
+            errors.append(f"stub fidelity case {name}/{n}/{w} failed to run: {type(e).__name__}: {e}")
+    if out["stub_fidelity"]["mismatches"]:
+        errors.append(f"STUB-FIDELITY: real pool and simulated pool disagree: {out['stub_fidelity']['mismatches']}")
+    out["errors"] = errors
+    return out
+
+
 class BadInitFault:
     """Counted wrapper: makes chosen attempts of a sampled run fail with BadInitialization."""
 
@@ -365,6 +425,28 @@ def run(ch, idx, tier):
                 a, b = dup
                 violations.append({"cls": "duplicate_perturbation", "site": site, "detail": {"samples": [a["sid"], b["sid"]], "pids": [a["pid"], b["pid"]], "tasks": [a["task"], b["task"]], "n_distinct": len(seen), "n_samples": compared, "config": config, "schedules": world.schedules}})
             else:
+                # component-wise: independent draws never give two samples the same perturbation of the same quantity,
+                # even when the rest of their perturbation differs (partially shared streams, generators that are not
+                # reseeded for some of the inputs)
+                part = None
+                vecs = [(rec, vec) for rec, vec in finals if len(vec)]
+                if vecs and all(len(v) == len(vecs[0][1]) for _, v in vecs):
+                    for j in range(len(vecs[0][1])):
+                        seen_j = {}
+                        for rec, vec in vecs:
+                            x = vec[j]
+                            if x == 0:
+                                continue
+                            if x in seen_j and seen_j[x]["sid"] != rec["sid"]:
+                                part = (seen_j[x], rec, j, x)
+                                break
+                            seen_j[x] = rec
+                        if part:
+                            break
+                if part is not None:
+                    a, b, j, x = part
+                    violations.append({"cls": "shared_perturbation_component", "site": site, "detail": {"samples": [a["sid"], b["sid"]], "pids": [a["pid"], b["pid"]], "component": j, "value": x, "config": config, "schedules": world.schedules}})
+            if not violations or violations[-1]["cls"] not in ("duplicate_perturbation", "shared_perturbation_component"):
                 # shared stream positions (shifted / partially shared streams)
                 owner = {}
                 shared = None
@@ -429,4 +511,5 @@ def run(ch, idx, tier):
         "nontrivial": bool(exc is None and nontrivial),
         "sample": {"config": config, "schedules": world.schedules[:1], "violations": [v["cls"] for v in violations]},
         "oplog": oplog,
+        "trace": hashlib.sha256(repr([(r["sid"], r["pid"], r["task"], r["attempts"]) for r in samples]).encode()).hexdigest(),
     }
